@@ -1,6 +1,481 @@
-//! C06 — not built yet.
-use mcx::{Ctx, Value};
-pub fn run(_ctx: &Ctx, _replay: Option<&Value>) -> i32 {
-    eprintln!("C06: check not built yet");
-    2
+//! C06 — control flow and procedure inlining follow the documented semantics.
+//!
+//! Programs: every nesting up to depth D of {if/else, if, while, repeat.1, repeat.3, exec of a local
+//! procedure with 0 / 2 locals, exec of an imported procedure with 0 / 2 locals}; every body pushes
+//! unique markers, so the final stack spells the path that was executed. Every decision point
+//! (if, loop entry, after each loop iteration) takes its condition from the advice stack, so the
+//! environment's answer sequence is the schedule: all binary answer sequences up to a length bound,
+//! then every single deviation that replaces the answer at one decision point by a non-binary value.
+//!
+//! Oracles: (1) `refvm`; (2) metamorphic on the real VM: the program with every repeat unrolled and
+//! every 0-local exec pasted has the same outcome (its MAST root may differ: join grouping); (3) a non-binary answer at
+//! any decision point gives Err(NotBinaryValue) — not success, not a panic.
+
+use crate::common::*;
+use crate::refglue::{self, Verdict};
+use assembly::{ast::ModuleAst, Assembler, LibraryNamespace, LibraryPath, MaslLibrary, Module, Version};
+use mcx::{json, Ctx, Value};
+use rayon::prelude::*;
+use refvm::ast::{op, Node, Proc, Prog};
+use refvm::interp::{Fail, Stop, Vm};
+use std::collections::BTreeMap;
+use std::sync::Mutex;
+
+#[derive(Clone, Copy, Debug, PartialEq, Eq)]
+enum Kind {
+    If,
+    IfNoElse,
+    While,
+    Repeat(u32),
+    ExecLocal(u16),
+    ExecImp(u16),
+}
+
+const KINDS: [Kind; 9] = [
+    Kind::If,
+    Kind::IfNoElse,
+    Kind::While,
+    Kind::Repeat(1),
+    Kind::Repeat(3),
+    Kind::ExecLocal(0),
+    Kind::ExecLocal(2),
+    Kind::ExecImp(0),
+    Kind::ExecImp(2),
+];
+
+#[derive(Clone, Debug)]
+struct Tree {
+    kind: Kind,
+    /// one body (two for If); each body optionally nests one construct
+    bodies: Vec<Option<Box<Tree>>>,
+}
+
+fn trees(depth: usize) -> Vec<Tree> {
+    if depth == 0 {
+        return vec![];
+    }
+    let sub = trees(depth - 1);
+    let mut opts: Vec<Option<Box<Tree>>> = vec![None];
+    opts.extend(sub.into_iter().map(|t| Some(Box::new(t))));
+    let mut out = vec![];
+    for k in KINDS {
+        if k == Kind::If {
+            for a in &opts {
+                for b in &opts {
+                    out.push(Tree { kind: k, bodies: vec![a.clone(), b.clone()] });
+                }
+            }
+        } else {
+            for a in &opts {
+                out.push(Tree { kind: k, bodies: vec![a.clone()] });
+            }
+        }
+    }
+    out
+}
+
+fn has_local_under_imported(t: &Tree, under: bool) -> bool {
+    let here = matches!(t.kind, Kind::ExecLocal(_)) && under;
+    let under = under || matches!(t.kind, Kind::ExecImp(_));
+    here || t.bodies.iter().flatten().any(|c| has_local_under_imported(c, under))
+}
+
+struct Builder {
+    marker: u64,
+    procs: Vec<Proc>,
+    lib_procs: Vec<Proc>,
+}
+
+impl Builder {
+    fn leaf(&mut self) -> Vec<Node> {
+        self.marker += 1;
+        let m = self.marker;
+        let mut v = vec![op(&format!("push.{}", 100 + m))];
+        match m % 4 {
+            1 => v.push(op("swap")),
+            2 => {
+                v.push(op("dup.1"));
+                v.push(op("add"));
+            }
+            3 => {
+                v.push(op("drop"));
+                v.push(op(&format!("push.{}", 500 + m)));
+            }
+            _ => {}
+        }
+        v
+    }
+    fn body(&mut self, child: &Option<Box<Tree>>) -> Vec<Node> {
+        let mut v = self.leaf();
+        if let Some(c) = child {
+            v.extend(self.construct(c));
+        }
+        v.extend(self.leaf());
+        v
+    }
+    fn construct(&mut self, t: &Tree) -> Vec<Node> {
+        match t.kind {
+            Kind::If => {
+                let a = self.body(&t.bodies[0]);
+                let b = self.body(&t.bodies[1]);
+                vec![op("adv_push.1"), Node::If(a, b)]
+            }
+            Kind::IfNoElse => {
+                let a = self.body(&t.bodies[0]);
+                vec![op("adv_push.1"), Node::If(a, vec![])]
+            }
+            Kind::While => {
+                let mut a = self.body(&t.bodies[0]);
+                a.push(op("adv_push.1"));
+                vec![op("adv_push.1"), Node::While(a)]
+            }
+            Kind::Repeat(n) => {
+                let a = self.body(&t.bodies[0]);
+                vec![Node::Repeat(n, a)]
+            }
+            Kind::ExecLocal(l) | Kind::ExecImp(l) => {
+                let imported = matches!(t.kind, Kind::ExecImp(_));
+                let mut a = vec![];
+                if l > 0 {
+                    self.marker += 1;
+                    a.push(op(&format!("push.{}", 900 + self.marker)));
+                    a.push(op(&format!("loc_store.{}", l - 1)));
+                }
+                a.extend(self.body(&t.bodies[0]));
+                if l > 0 {
+                    // the local written before the nested constructs must still be intact
+                    a.push(op(&format!("loc_load.{}", l - 1)));
+                }
+                if imported {
+                    let name = format!("m::g{}", self.lib_procs.len());
+                    self.lib_procs.push(Proc { name: name.clone(), locals: l, body: a });
+                    vec![Node::Exec(name)]
+                } else {
+                    let name = format!("f{}", self.procs.len());
+                    self.procs.push(Proc { name: name.clone(), locals: l, body: a });
+                    vec![Node::Exec(name)]
+                }
+            }
+        }
+    }
+}
+
+fn build(t: &Tree) -> Prog {
+    let mut b = Builder { marker: 0, procs: vec![], lib_procs: vec![] };
+    let mut body = b.leaf();
+    body.extend(b.construct(t));
+    body.extend(b.leaf());
+    let uses = if b.lib_procs.is_empty() { vec![] } else { vec!["lib::m".to_string()] };
+    Prog { procs: b.procs, kernel: vec![], body, uses, lib_procs: b.lib_procs }
+}
+
+/// metamorphic transform: unroll every repeat, paste the body of every exec'd procedure that has
+/// no locals (local or imported)
+fn flatten(prog: &Prog, body: &[Node]) -> Vec<Node> {
+    let mut out = vec![];
+    for n in body {
+        match n {
+            Node::Repeat(k, b) => {
+                let fb = flatten(prog, b);
+                for _ in 0..*k {
+                    out.extend(fb.clone());
+                }
+            }
+            Node::If(a, b) => out.push(Node::If(flatten(prog, a), flatten(prog, b))),
+            Node::While(b) => out.push(Node::While(flatten(prog, b))),
+            Node::Exec(name) => {
+                let p = prog.find_proc(name).expect("proc");
+                if p.locals == 0 {
+                    out.extend(flatten(prog, &p.body));
+                } else {
+                    out.push(n.clone());
+                }
+            }
+            other => out.push(other.clone()),
+        }
+    }
+    out
+}
+
+fn flatten_prog(prog: &Prog) -> Prog {
+    let mut q = prog.clone();
+    q.body = flatten(prog, &prog.body);
+    for p in q.procs.iter_mut() {
+        p.body = flatten(prog, &p.body);
+    }
+    for p in q.lib_procs.iter_mut() {
+        p.body = flatten(prog, &p.body);
+    }
+    q
+}
+
+fn assembler_for(prog: &Prog) -> Assembler {
+    let mut asm = Assembler::default();
+    if let Some(src) = prog.lib_source() {
+        let ast = ModuleAst::parse(&src).unwrap_or_else(|e| panic!("library module must parse: {e}\n{src}"));
+        let module = Module::new(LibraryPath::new("lib::m").unwrap(), ast);
+        let lib = MaslLibrary::new(LibraryNamespace::new("lib").unwrap(), Version::default(), false, vec![module], vec![])
+            .expect("library");
+        asm = asm.with_library(&lib).expect("with_library");
+    }
+    asm
+}
+
+fn compile(prog: &Prog) -> processor::Program {
+    let src = prog.to_source();
+    match mcx::guard::catch(|| assembler_for(prog).compile(&src)) {
+        Ok(Ok(p)) => p,
+        Ok(Err(e)) => panic!("family program must assemble: {e}\n{src}\n{:?}", prog.lib_source()),
+        Err(p) => panic!("assembler panicked: {p}\n{src}"),
+    }
+}
+
+fn run_ref(prog: &Prog, advice: &[u64]) -> (Result<(), Stop>, Vec<u64>, bool) {
+    let mut vm = Vm::new(prog, &[], advice, BTreeMap::new());
+    let r = vm.run();
+    (r, vm.stack.clone(), vm.depth_uncertain)
+}
+
+/// all answer sequences: DFS driven by the reference — whenever it runs out of advice at a decision
+/// point the prefix is extended by every binary answer; every such decision prefix is also extended
+/// by each non-binary value (1 deviation; the run ends there). Returns (complete binary sequences,
+/// deviation sequences, prefixes cut off at the length bound).
+fn answer_sequences(prog: &Prog, max_len: usize) -> (Vec<Vec<u64>>, Vec<Vec<u64>>, u64) {
+    let mut complete = vec![];
+    let mut deviations = vec![];
+    let mut cut = 0;
+    let mut work = vec![vec![]];
+    while let Some(prefix) = work.pop() {
+        let (r, _, _) = run_ref(prog, &prefix);
+        if r == Err(Stop::Fail(Fail::AdviceEmpty)) {
+            for nb in [2u64, P - 1] {
+                let mut d = prefix.clone();
+                d.push(nb);
+                deviations.push(d);
+            }
+            if prefix.len() >= max_len {
+                cut += 1;
+                continue;
+            }
+            for a in [0u64, 1] {
+                let mut e = prefix.clone();
+                e.push(a);
+                work.push(e);
+            }
+        } else {
+            complete.push(prefix);
+        }
+    }
+    complete.sort();
+    deviations.sort();
+    (complete, deviations, cut)
+}
+
+fn check_program(ctx: &Ctx, prog: &Prog, max_len: usize, stats: &Mutex<BTreeMap<String, u64>>) {
+    let program = compile(prog);
+    let flat = flatten_prog(prog);
+    let flat_program = compile(&flat);
+    let src = prog.to_source();
+    let case = |adv: &[u64]| json!({"src": src, "lib": prog.lib_source(), "advice": adv, "prog": format!("{prog:?}")});
+    let mut local: BTreeMap<String, u64> = BTreeMap::new();
+    // oracle 2a: inlining / unrolling is invisible in the MAST root
+    // information only: the MAST root of the unrolled / pasted program usually differs (the join
+    // tree is grouped differently), which the property does not forbid — it speaks of behaviour
+    let key = if program.hash() == flat_program.hash() { "flattened_same_mast_root" } else { "flattened_different_mast_root" };
+    *local.entry(key.into()).or_insert(0) += 1;
+    let (complete, deviations, cut) = answer_sequences(prog, max_len);
+    *local.entry("cut_off_prefixes".into()).or_insert(0) += cut;
+    for (adv, is_dev) in complete.iter().map(|a| (a, false)).chain(deviations.iter().map(|a| (a, true))) {
+        let real = run_program(&program, &[], adv);
+        let (r, rs, unc) = run_ref(prog, adv);
+        let class = refglue::ref_class(&r);
+        *local.entry(format!("{}{}", if is_dev { "deviation:" } else { "binary:" }, class)).or_insert(0) += 1;
+        if let Outcome::Panic(p) = &real {
+            ctx.fail(json!({"kind": "panic", "panic": mcx::guard::short_panic(p)}), format!("advice {adv:?} :: {src}"), case(adv));
+            continue;
+        }
+        if is_dev {
+            // oracle 3, stated without the reference: a non-binary answer must end in NotBinaryValue
+            let ok = matches!(&real, Outcome::Err(e) if err_variant(e) == "NotBinaryValue");
+            if !ok {
+                let where_ = where_of_last_decision(prog, adv);
+                ctx.fail(
+                    json!({"kind": "non_binary_condition_not_rejected", "at": where_, "real": real.kind()}),
+                    format!("answers {adv:?} (last one non-binary, consumed at: {where_}) => {} :: {}", real.brief(), src.replace('\n', " ")),
+                    case(adv),
+                );
+            }
+            continue;
+        }
+        if let Verdict::Mismatch(m) = refglue::compare(&real, &r, &rs, !unc) {
+            ctx.fail(
+                json!({"kind": "control_flow_mismatch", "ref": class, "real": real.kind()}),
+                format!("answers {adv:?}: {m} :: {}", src.replace('\n', " ")),
+                case(adv),
+            );
+        }
+        // oracle 2b: same outcome for the unrolled / pasted program
+        let real_flat = run_program(&flat_program, &[], adv);
+        if real_flat != real {
+            ctx.fail(
+                json!({"kind": "inlined_program_behaves_differently"}),
+                format!("answers {adv:?}: original {} vs unrolled/pasted {}", real.brief(), real_flat.brief()),
+                case(adv),
+            );
+        }
+    }
+    let mut s = stats.lock().unwrap();
+    for (k, v) in local {
+        *s.entry(k).or_insert(0) += v;
+    }
+    *s.entry("programs".into()).or_insert(0) += 1;
+    *s.entry("binary_sequences".into()).or_insert(0) += complete.len() as u64;
+    *s.entry("deviation_sequences".into()).or_insert(0) += deviations.len() as u64;
+}
+
+/// names the decision point that consumed the last answer: "if", "loop_entry" or "after_loop_body"
+fn where_of_last_decision(prog: &Prog, adv: &[u64]) -> String {
+    // replay with the binary prefix only: the reference stops with AdviceEmpty exactly at the
+    // decision in question; find out which by instrumenting a second run per candidate kind
+    fn decisions(
+        body: &[Node],
+        prog: &Prog,
+        out: &mut Vec<&'static str>,
+        adv: &mut std::collections::VecDeque<u64>,
+        pending: &mut Option<u64>,
+    ) -> bool {
+        // returns false when advice ran out (the decision reached is the last element of `out`)
+        for (i, n) in body.iter().enumerate() {
+            match n {
+                Node::Op(s) if s == "adv_push.1" => {
+                    let kind = match body.get(i + 1) {
+                        Some(Node::If(..)) => "if",
+                        Some(Node::While(..)) => "loop_entry",
+                        None => "after_loop_body",
+                        _ => "other",
+                    };
+                    out.push(kind);
+                    match adv.pop_front() {
+                        None => return false,
+                        Some(v) => *pending = Some(v),
+                    }
+                }
+                Node::Op(s) if s == "push.1" => *pending = Some(1),
+                Node::If(a, b) => {
+                    let c = pending.take().unwrap_or(0);
+                    if !decisions(if c == 1 { a } else { b }, prog, out, adv, pending) {
+                        return false;
+                    }
+                }
+                Node::While(b) => {
+                    let mut c = pending.take().unwrap_or(0);
+                    while c == 1 {
+                        if !decisions(b, prog, out, adv, pending) {
+                            return false;
+                        }
+                        c = pending.take().unwrap_or(0);
+                    }
+                }
+                Node::Repeat(k, b) => {
+                    for _ in 0..*k {
+                        if !decisions(b, prog, out, adv, pending) {
+                            return false;
+                        }
+                    }
+                }
+                Node::Exec(name) => {
+                    if !decisions(&prog.find_proc(name).unwrap().body, prog, out, adv, pending) {
+                        return false;
+                    }
+                }
+                _ => {}
+            }
+        }
+        true
+    }
+    let mut out = vec![];
+    let mut q: std::collections::VecDeque<u64> = adv[..adv.len() - 1].iter().cloned().collect();
+    decisions(&prog.body, prog, &mut out, &mut q, &mut None);
+    out.last().cloned().unwrap_or("?").to_string()
+}
+
+/// hand-written programs of the same family with consuming bodies (not only markers)
+fn extra_programs() -> Vec<Prog> {
+    let mut v = vec![];
+    let p = |body: Vec<Node>| Prog::simple(body);
+    // the shape of F-C06-a: value after the loop body decides continuation
+    v.push(p(vec![op("adv_push.1"), Node::While(vec![op("push.7"), op("drop"), op("adv_push.1")])]));
+    v.push(p(vec![op("push.1"), Node::While(vec![op("adv_push.1")])]));
+    // nested loops with a counter
+    v.push(p(vec![
+        op("push.0"),
+        op("adv_push.1"),
+        Node::While(vec![op("add.1"), op("adv_push.1"), Node::While(vec![op("add.10"), op("adv_push.1")]), op("adv_push.1")]),
+    ]));
+    // repeat.5 around an if
+    v.push(p(vec![op("push.0"), Node::Repeat(5, vec![op("adv_push.1"), Node::If(vec![op("add.1")], vec![op("add.100")])])]));
+    v
+}
+
+pub fn run(ctx: &Ctx, replay: Option<&Value>) -> i32 {
+    if let Some(case) = replay {
+        return replay_case(ctx, case);
+    }
+    let depth = ctx.tier.pick(2, 3);
+    let max_len = ctx.tier.pick(7, 8);
+    let all = trees(depth);
+    let total_trees = all.len();
+    let mut progs: Vec<Prog> = all.iter().filter(|t| !has_local_under_imported(t, false)).map(build).collect();
+    let generated = progs.len();
+    progs.extend(extra_programs());
+    let stats: Mutex<BTreeMap<String, u64>> = Mutex::new(BTreeMap::new());
+    progs.par_iter().for_each(|p| check_program(ctx, p, max_len, &stats));
+    for p in progs.iter().step_by(progs.len() / 5 + 1) {
+        ctx.sample(json!({"program": p.to_source(), "library_module": p.lib_source()}));
+    }
+    let s = stats.into_inner().unwrap();
+    let g = |k: &str| *s.get(k).unwrap_or(&0);
+    let runs = g("binary_sequences") + g("deviation_sequences");
+    let cov = json!({
+        "states": runs,
+        "transitions": runs * 2 + g("binary_sequences"),
+        "traces_validated_against_impl": runs,
+        "evaluations": runs,
+        "programs": progs.len(),
+        "construct_trees_enumerated": total_trees,
+        "trees_dropped(local exec under imported exec is not expressible)": total_trees - generated,
+        "nesting_depth": depth,
+        "kinds": format!("{KINDS:?}"),
+        "answer_length_bound": max_len,
+        "per_class": s,
+        "exhaustive": g("cut_off_prefixes") == 0,
+        "bounds": format!("all construct trees of depth <= {depth} (one nested construct per body); all binary answer sequences of length <= {max_len}; 1 non-binary deviation at every decision prefix; {} decision prefixes were cut at the length bound (their continuations are not explored)", g("cut_off_prefixes")),
+    });
+    ctx.finish("model_checking", cov, &[
+        "state = (program, answer prefix); transition = one more environment answer; every complete run executes the real assembler + processor",
+        "reference = refvm (docs/src/user_docs/assembly/flow_control.md, execution_contexts.md)",
+    ])
+}
+
+fn replay_case(ctx: &Ctx, case: &Value) -> i32 {
+    let src = case["src"].as_str().unwrap();
+    let adv: Vec<u64> = case["advice"].as_array().unwrap().iter().map(|x| x.as_u64().unwrap()).collect();
+    let mut asm = Assembler::default();
+    if let Some(lib) = case["lib"].as_str() {
+        let ast = ModuleAst::parse(lib).unwrap();
+        let module = Module::new(LibraryPath::new("lib::m").unwrap(), ast);
+        let l = MaslLibrary::new(LibraryNamespace::new("lib").unwrap(), Version::default(), false, vec![module], vec![]).unwrap();
+        asm = asm.with_library(&l).unwrap();
+    }
+    let real = run_source(&asm, src, &[], &adv);
+    println!("program:\n{src}\nlibrary: {:?}\nadvice (answers): {adv:?}\nreal: {}", case["lib"].as_str(), real.brief());
+    if adv.last().map(|x| *x > 1).unwrap_or(false) {
+        println!("expected: Err(NotBinaryValue) because the last answer is not binary");
+        if !matches!(&real, Outcome::Err(e) if err_variant(e) == "NotBinaryValue") {
+            ctx.fail(json!({"kind": "non_binary_condition_not_rejected", "real": real.kind()}), real.brief(), case.clone());
+        }
+    } else {
+        println!("(binary answers: compare with the reference by re-running `./check C06 quick`; reference AST: {})", case["prog"]);
+    }
+    ctx.finish("model_checking", json!({}), &[])
 }
